@@ -20,6 +20,12 @@ OWN = {
 
 def run(res, prop, tier, wd_name):
     wd = vlib.workdir(wd_name)
+    # D: the loop of every list-valued RDATA decoder (options, parameters, strings, windows): bounds,
+    # termination, agreement with the declarative tiling -- for header sizes 4, 2 and 1
+    for cfg, zero in (("MC_TlvLoop.cfg", ()), ("MC_TlvLoop_h2.cfg", ()), ("MC_TlvLoop_h1.cfg", ("Partial",))):
+        st = vlib.mc(os.path.join(vlib.SPEC, "MC_TlvLoop.tla"), os.path.join(vlib.SPEC, cfg), wd, workers=4, timeout=900,
+                     allow_zero=zero)
+        res.add_mc(cfg, st)
     cfg = "Gen_Grammar_thorough.cfg" if tier == "thorough" else "Gen_Grammar.cfg"
     cases, gst = vlib.gen(os.path.join(vlib.SPEC, "Gen_Grammar.tla"), os.path.join(vlib.SPEC, cfg), wd,
                           workers=6, timeout=3000, heap="8g")
@@ -69,7 +75,7 @@ def run(res, prop, tier, wd_name):
     res.evaluations += len(lines)
     res.extra["grammar"] = {"cases": len(cases), "well_formed_in_context": must, "record_types": len(types),
                             "accepted_by_Message_from_vec": accepted, "refused": refused,
-                            "kinds": {k: sum(1 for c in cases if c["kind"] == k) for k in ("single", "context", "pair")}}
+                            "kinds": {k: sum(1 for c in cases if c["kind"] == k) for k in ("single", "context", "pair", "tlv")}}
     own = OWN[prop]
     other = 0
     for m in mism:
